@@ -119,7 +119,11 @@ func genOtherRec(rt *rapid.T, tk *tokens, kind string, collide bool) kenc.Rec {
 		return kenc.Rec{Type: recgen.CWD, Fields: []kenc.F{kenc.U("cwd", "/home/"+tk.s("cwd"))}}
 	case "execve":
 		var args [][]byte
-		for i, n := 0, rapid.IntRange(0, 4).Draw(rt, "argc"); i < n; i++ {
+		argc := rapid.IntRange(0, 4).Draw(rt, "argc")
+		if rapid.IntRange(0, 7).Draw(rt, "manyargs") == 0 {
+			argc = rapid.IntRange(9, 24).Draw(rt, "argcmany") // two-digit argument keys: a10 sorts before a2 as text
+		}
+		for i, n := 0, argc; i < n; i++ {
 			a := tk.s("arg")
 			if rapid.IntRange(0, 3).Draw(rt, "hexarg") == 0 {
 				a = "arg with space " + tk.s("")
@@ -310,7 +314,11 @@ func genC09(rt *rapid.T) C09Case {
 				others = append(others, genOtherRec(rt, tk, k, rapid.IntRange(0, 2).Draw(rt, "collide") == 0))
 			}
 		}
-		for i, n := 0, rapid.IntRange(0, 4).Draw(rt, "npaths"); i < n; i++ {
+		npaths := rapid.IntRange(0, 4).Draw(rt, "npaths")
+		if rapid.IntRange(0, 11).Draw(rt, "manypaths") == 0 {
+			npaths = rapid.IntRange(9, 13).Draw(rt, "npathsmany") // two-digit item numbers
+		}
+		for i, n := 0, npaths; i < n; i++ {
 			others = append(others, genPathRec(rt, tk, i))
 		}
 		if len(others) > 1 && rapid.Bool().Draw(rt, "shuffle") {
